@@ -18,6 +18,8 @@ results are judged per run only.
 -/
 import Spade.Judge
 import Spade.Properties.C05
+import Spade.Proofs.StableOrder
+import Spade.Generated.Shapes
 namespace Spade
 open AState
 
@@ -82,5 +84,42 @@ theorem C10_insertAll_size (l : List (Pt × Nat)) (a : AState) :
     · rw [h] at h1; simp at h1; omega
 
 example : isSubseq [(⟨1, 1⟩, 5), (⟨2, 2⟩, 6)] [(⟨1, 1⟩, 5), (⟨1, 1⟩, 9), (⟨2, 2⟩, 6)] = true := by decide
+
+
+/-! ### the re-ordering tail of the stable loaders (`Spade/Algo/Stable.lean`)
+
+`bulk_load_stable` builds the triangulation from `(index, vertex)` pairs with the ordinary
+(unstable) loader, closes the gaps left by dropped duplicates (rank of every surviving index) and
+then swaps vertices until vertex `i` carries rank `i`.  For every input — any size, any set of
+dropped duplicates, any order the inner loader produced — the model of that tail ends with the
+vertices strictly ascending in their original index, i.e. as an order-preserving subsequence of
+the caller's input: -/
+theorem C10_stable_order_model {α : Type} (vs : List (α × Nat)) (hnd : (vs.map (·.2)).Nodup) :
+    (Stable.reorder vs).length = vs.length ∧
+    (∀ x, x ∈ Stable.reorder vs → x ∈ vs) ∧
+    ((Stable.reorder vs).map (·.2)).Pairwise (· < ·) :=
+  Stable.reorder_sorted vs hnd
+
+/-- the swap loop alone: from any permutation of target indices it reaches the identity within
+`2·n` iterations (each iteration either advances or places one more vertex for good) -/
+theorem C10_swap_loop_model {α : Type} (l : List (α × Nat)) (hp : Stable.IsPerm l) :
+    ∀ i, i < l.length → Stable.kf (Stable.swapLoop (2 * l.length) 0 l) i = i := by
+  have hfuel : (l.length - 0) + Stable.nf l ≤ 2 * l.length := by
+    have : Stable.nf l ≤ l.length := by
+      unfold Stable.nf
+      have := List.countP_le_length (p := fun i => decide (Stable.kf l i ≠ i)) (l := List.range l.length)
+      simpa using this
+    omega
+  exact (Stable.swapLoop_spec (2 * l.length) 0 l hp (fun i hi => absurd hi (Nat.not_lt_zero i)) hfuel).2.1
+
+/-- tie to the source: T0 recognised, in /repo's current `bulk_load_stable`, exactly the statements
+the model mirrors (enumerate, inner loader, rank of the surviving indices via
+`sort_unstable_by_key`, the swap loop, dropping the indices); a change of that code makes this
+obligation fail until the model is brought up to date -/
+theorem C10_stable_tail_shape : Generated.stableTailRecognised = true := by decide
+
+/-- non-vacuity (the running example of the code's comment: indices 2 and 5 were duplicates) -/
+example : Stable.reorder [("d", 3), ("a", 0), ("b", 1), ("e", 4), ("g", 6)] =
+    [("a", 0), ("b", 1), ("d", 3), ("e", 4), ("g", 6)] := by decide
 
 end Spade
